@@ -157,8 +157,12 @@ Lemma pres_as_int v : pres (as_int v).
 Proof. unfold as_int. repeat pres_step. Qed.
 Lemma pres_opt_int v : pres (opt_int v).
 Proof. unfold opt_int. repeat pres_step. Qed.
+Lemma pres_obs_list vs : pres (obs_list vs).
+Proof. unfold obs_list. repeat pres_step. Qed.
+Lemma pres_lift_sres r : pres (lift_sres r).
+Proof. unfold lift_sres. repeat pres_step. Qed.
 Lemma pres_str_of v : pres (str_of v).
-Proof. unfold str_of. repeat pres_step. Qed.
+Proof. unfold str_of. repeat (apply pres_obs_list || pres_step). Qed.
 Lemma pres_veqM a b : pres (veqM a b).
 Proof. unfold veqM. repeat pres_step. Qed.
 Lemma pres_iter_elems v : pres (iter_elems v).
@@ -170,6 +174,8 @@ Ltac pres_step2 :=
   | |- pres (as_int _) => apply pres_as_int
   | |- pres (opt_int _) => apply pres_opt_int
   | |- pres (str_of _) => apply pres_str_of
+  | |- pres (obs_list _) => apply pres_obs_list
+  | |- pres (lift_sres _) => apply pres_lift_sres
   | |- pres (veqM _ _) => apply pres_veqM
   | |- pres (iter_elems _) => apply pres_iter_elems
   | _ => pres_step
@@ -196,6 +202,8 @@ Lemma pres_call_builtin b args kwargs : pres (call_builtin b args kwargs).
 Proof. unfold call_builtin. destruct kwargs; [|apply pres_fail]. repeat pres_step2. Qed.
 Lemma pres_call_method recv m args : pres (call_method recv m args).
 Proof. unfold call_method. repeat pres_step2. Qed.
+Lemma pres_call_method_kw recv m args kwargs : pres (call_method_kw recv m args kwargs).
+Proof. unfold call_method_kw. destruct kwargs; [apply pres_call_method|]. repeat pres_step2. Qed.
 Lemma pres_alloc_cells names : pres (alloc_cells names).
 Proof. induction names as [|x t IH]; cbn [alloc_cells]; repeat pres_step2. Qed.
 Lemma pres_aug_list_inplace o a b m : aug_list_inplace o a b = Some m -> pres m.
@@ -214,6 +222,7 @@ Ltac pres_tac :=
     | |- pres (set_index _ _ _) => apply pres_set_index
     | |- pres (call_builtin _ _ _) => apply pres_call_builtin
     | |- pres (call_method _ _ _) => apply pres_call_method
+    | |- pres (call_method_kw _ _ _ _) => apply pres_call_method_kw
     | |- pres (alloc_cells _) => apply pres_alloc_cells
     | |- pres (iter_lock _ _) => apply pres_iter_lock
     | _ => pres_step2
